@@ -56,6 +56,7 @@ type Scenario struct {
 }
 
 type opRec struct {
+	After  *opRec // pipelined on the same connection right after this one (program order)
 	Thread int
 	Call   int64
 	Ret    int64
